@@ -159,22 +159,44 @@ def check(an, rep, tier):
     # --- P-sentinel
     fn = prog.func('act_two.accuracy')
     mod = fn.module
-    sent = None
-    for node in ast.walk(fn.node):
-        if isinstance(node, ast.If) and any(
-                isinstance(s, ast.Return) and
-                isinstance(s.value, ast.UnaryOp) and
-                isinstance(s.value.operand, ast.Constant) and
-                s.value.operand.value == 1 for s in node.body):
-            txt = paths.src(mod, node.test)
-            if 'abs(z2)' in txt.replace(' ', '') and '<' in txt:
-                sent = node
+    # every returned quotient  x / D  (D a local scalar) is dominated by the
+    # failing test  abs(D) < c  of a branch that returns the sentinel -1
+    def _is_abs_of(x, name):
+        return isinstance(x, ast.Call) and len(x.args) == 1 and \
+            isinstance(x.args[0], ast.Name) and x.args[0].id == name and \
+            (prog.dotted(x.func) or getattr(x.func, 'id', '')
+             ).split('.')[-1] in ('abs', 'fabs', 'absolute')
     quot = [n for n in ast.walk(fn.node) if isinstance(n, ast.Return) and
             isinstance(n.value, ast.BinOp) and
             isinstance(n.value.op, ast.Div) and
-            isinstance(n.value.right, ast.Name) and n.value.right.id == 'z2']
-    ok = sent is not None and quot and all(q_.lineno > sent.lineno
-                                           for q_ in quot)
+            isinstance(n.value.right, ast.Name)]
+    ok = bool(quot)
+    for q_ in quot:
+        den = q_.value.right.id
+        gs = paths.guards_of(fn.node, q_)
+        big = any(oc in (ast.GtE, ast.Gt) and _is_abs_of(l, den)
+                  for _, oc, _, l, r in paths.cmp_facts(gs))
+        sentinel = False
+        for node in ast.walk(fn.node):
+            if isinstance(node, ast.If) and node.lineno < q_.lineno:
+                for arm, pol in ((node.body, True), (node.orelse, False)):
+                    if any(isinstance(s_, ast.Return) and
+                           isinstance(s_.value, ast.UnaryOp) and
+                           isinstance(s_.value.op, ast.USub) and
+                           isinstance(s_.value.operand, ast.Constant) and
+                           s_.value.operand.value == 1 for s_ in arm):
+                        t_ = node.test
+                        while isinstance(t_, ast.UnaryOp) and \
+                                isinstance(t_.op, ast.Not):
+                            t_, pol = t_.operand, not pol
+                        parts = t_.values if isinstance(t_, ast.BoolOp) and \
+                            isinstance(t_.op, ast.Or) and pol else [t_]
+                        for v_ in parts:
+                            if any(oc in (ast.Lt, ast.LtE) and
+                                   _is_abs_of(l, den) for _, oc, _, l, r in
+                                   paths.cmp_facts([(v_, pol)])):
+                                sentinel = True
+        ok = ok and big and sentinel
     rep.add('P-sentinel', 'act_two.accuracy', 'return -1 when |z2| tiny',
             'ok' if ok else 'violation',
             '' if ok else 'the degenerate branch (returning the sentinel -1) '
